@@ -652,12 +652,18 @@ ssize_t ZCK_PUBLIC_API zck_write(zckCtx *zck, const char *src, const size_t src_
 }
 
 ssize_t ZCK_PUBLIC_API zck_end_chunk(zckCtx *zck) {
+    return comp_end_chunk(zck, false);
+}
+
+/* force: end the chunk even if it is shorter than the minimum chunk size
+ * (the last chunk of a file) */
+ssize_t comp_end_chunk(zckCtx *zck, bool force) {
     VALIDATE_WRITE_INT(zck);
 
     if(!zck->comp.started && !comp_init(zck))
         return -1;
 
-    if(zck->comp.dc_data_size < zck->chunk_min_size) {
+    if(!force && zck->comp.dc_data_size < zck->chunk_min_size) {
         zck_log(ZCK_LOG_DDEBUG, "Chunk too small, refusing to end chunk");
         return zck->comp.dc_data_size;
     }
